@@ -7,10 +7,11 @@ from sym_metanet.engines.core import EngineBase
 
 
 class _Group:
-    def __init__(self, real, counter, prefix):
+    def __init__(self, real, counter, prefix, log=None):
         object.__setattr__(self, "_real", real)
         object.__setattr__(self, "_counter", counter)
         object.__setattr__(self, "_prefix", prefix)
+        object.__setattr__(self, "_log", log)
 
     def __getattr__(self, name):
         target = getattr(self._real, name)
@@ -18,19 +19,39 @@ class _Group:
             return target
         counter, key = self._counter, f"{self._prefix}.{name}"
 
+        log = self._log
+
         def wrapped(*a, **k):
             counter[key] = counter.get(key, 0) + 1
-            return target(*a, **k)
+            if log is None:
+                return target(*a, **k)
+            frozen = (_freeze(a), _freeze(k))  # the arguments as they were BEFORE the call
+            r = target(*a, **k)
+            log.append((key, frozen[0], frozen[1], _freeze(r)))
+            return r
 
         return wrapped
 
 
+def _freeze(x):
+    """A private copy of an argument/result structure (arrays are copied, containers rebuilt)."""
+    import numpy as np
+    if isinstance(x, np.ndarray):
+        return x.copy()
+    if isinstance(x, (list, tuple)):
+        return type(x)(_freeze(y) for y in x)
+    if isinstance(x, dict):
+        return {k: _freeze(v) for k, v in x.items()}
+    return x
+
+
 class SpyEngine(EngineBase):
-    def __init__(self, real, label):
+    def __init__(self, real, label, record=False):
         super().__init__()
         self.real = real
         self.label = label
         self.calls: dict[str, int] = {}
+        self.log = [] if record else None  # (primitive, args, kwargs, result) of every primitive call, in order
 
     def total(self):
         return sum(self.calls.values())
@@ -40,19 +61,19 @@ class SpyEngine(EngineBase):
 
     @property
     def nodes(self):
-        return _Group(self.real.nodes, self.calls, "nodes")
+        return _Group(self.real.nodes, self.calls, "nodes", self.log)
 
     @property
     def links(self):
-        return _Group(self.real.links, self.calls, "links")
+        return _Group(self.real.links, self.calls, "links", self.log)
 
     @property
     def origins(self):
-        return _Group(self.real.origins, self.calls, "origins")
+        return _Group(self.real.origins, self.calls, "origins", self.log)
 
     @property
     def destinations(self):
-        return _Group(self.real.destinations, self.calls, "destinations")
+        return _Group(self.real.destinations, self.calls, "destinations", self.log)
 
     def var(self, name, n=1, *args, **kwargs):
         self.calls["var"] = self.calls.get("var", 0) + 1
